@@ -34,6 +34,27 @@ pub fn raw_tx(signer_idx: u8, chain_id: u64, nonce: u64, to: Option<Address>, da
     buf
 }
 
+/// The same without EIP-155 replay protection (no chain id in the signed payload, v = 27 / 28).
+pub fn raw_tx_unprotected(signer_idx: u8, nonce: u64, to: Option<Address>, data: &[u8]) -> Vec<u8> {
+    let tx = TxLegacy {
+        chain_id: None,
+        nonce,
+        gas_price: 0,
+        gas_limit: 0,
+        to: match to {
+            Some(a) => TxKind::Call(a),
+            None => TxKind::Create,
+        },
+        value: U256::ZERO,
+        input: Bytes::from(data.to_vec()),
+    };
+    let s = signer(signer_idx);
+    let sig = s.sign_hash_sync(&tx.signature_hash()).expect("sign");
+    let mut buf = Vec::new();
+    tx.rlp_encode_signed(&sig, &mut buf);
+    buf
+}
+
 /// (signer, nonce) of a raw signed legacy transaction, if it decodes.
 pub fn decode_raw(raw: &[u8]) -> Option<(Address, u64)> {
     let mut slice: &[u8] = raw;
